@@ -1,6 +1,6 @@
 SPECIFICATION Spec
 CONSTANTS
-  ShapeIds = {"s2x2", "s1x3", "s2x1", "s3x1"}
+  ShapeIds = {"s2x2", "s1x3", "s2x1", "s3x1", "q2x2", "q1x3"}
   PickedIds = {"p1", "p2", "p3", "p4", "p5", "p6", "p7"}
   Mols = {"dna", "protein"}
   MaxDepth = 2
